@@ -293,6 +293,20 @@ def gen_boundary(r, cid, mode):
         kind = r.choice(["slice", "vec", "array"])
         ln = r.choice([0, 1, 2, 3, 5, 8])
         env = mk_env(kind, ln, mode=mode)
+        if r.chance(1, 3):
+            # requests whose SUM passes 2^64 on a small source: harmless as long as every reservation is clamped to the length
+            s_, m_ = r.choice([(1 << 63, 2), (1 << 63, 3), (1 << 62, 4), (1 << 62, 5), (UMAX, 2), (UMAX // 2 + 1, 2), (UMAX // 2 + 1, 3)])
+            p = []
+            if r.chance(1, 2):
+                p.append("next:" + r.choice(["idval", "val"]))
+            if r.chance(1, 2):
+                p += ["chunk:%d:%d" % (s_, r.choice([0, 1, 8])) for _ in range(m_ + r.below(2))]
+            else:
+                p += ["bufnew:%d" % s_] + ["bufnext:%d" % r.choice([0, 1, 8]) for _ in range(m_ + r.below(2))] + ["bufdrop"]
+            if r.chance(1, 2):
+                p.append(r.choice(["next:idval", "len", "more", "chunk:2:9"]))
+            fin = r.weighted([("drop", 1), ("seq:%d" % r.choice([0, 2, 9]), 2)])
+            return dict(id=cid, env=env, progs=[p], final=fin, seed=r.below(1 << 30), gen="solo", sched=None)
     else:
         ln = r.choice([0, 1, 2, 3, 5, 8])
         env = mk_env("iter", ln, hint=r.choice(["exact", "inexact", "none"]), owning=r.chance(1, 2), mode=mode)
